@@ -19,6 +19,7 @@ import PolytuneModel.Prim.AesRng
 import PolytuneModel.Proto.ABitCheck
 import PolytuneModel.Prim.TransposePortable
 import PolytuneModel.Prim.TransposeAvx
+import PolytuneModel.Http.Api
 /-! `ptmodel`: one request per line on stdin, one response per line on stdout. -/
 open PolytuneModel PolytuneModel.Buf
 
@@ -89,6 +90,7 @@ structure DState where
   mem  : Mem Nat := []
   circ : Option Circuit := none
   srv  : List (Nat × Server.St) := []
+  http : List (Nat × Http.Reg) := []      -- per HTTP server: its registry of handles
   taps : Online.Taps := ⟨0, #[], #[], #[], #[], #[]⟩
 
 def two (s : String) (sep : String) : Option (Nat × Nat) :=
@@ -224,6 +226,23 @@ def step (st : DState) (line : String) : DState × String :=
     match parseHexBytes seed, n.toNat? with
     | some s, some n => (st, "ctr " ++ hexOf (Aes.ctr s n))
     | _, _ => (st, "bad-op")
+  | ["http", "reset"] => ({ st with http := [] }, "ok")
+  | ["http", srv, "fin", id] =>
+    match srv.toNat?, id.toNat? with
+    | some srv, some id =>
+      let cur := (st.http.find? (·.1 == srv)).map (·.2) |>.getD []
+      ({ st with http := (srv, Http.finish cur id) :: st.http.filter (·.1 != srv) }, "ok")
+    | _, _ => (st, "bad-op")
+  | ["http", srv, "req", route, id, reply] =>   -- reply: what the handle returned IF it was reached (ok | err | stopped)
+    let r : Option Http.Route := match route with | "schedule" => some .schedule | "validate" => some .validate | "run" => some .run | "consts" => some .consts | "msg" => some .msg | _ => none
+    let rp : Option Http.Reply := match reply with | "ok" => some .ok | "err" => some .policyErr | "stopped" => some .stopped | _ => none
+    match srv.toNat?, id.toNat?, r, rp with
+    | some srv, some id, some r, some rp =>
+      let cur := (st.http.find? (·.1 == srv)).map (·.2) |>.getD []
+      let out := Http.serve cur r id rp
+      let code := match out.2.2 with | .s200 => "200" | .s400 => "400" | .s404 => "404" | .s500 => "500"
+      ({ st with http := (srv, out.1) :: st.http.filter (·.1 != srv) }, "reached=" ++ (if out.2.1 then "1" else "0") ++ " status=" ++ code)
+    | _, _, _, _ => (st, "bad-op")
   | "srv" :: id :: rest =>
     match id.toNat? with
     | none => (st, "bad-op")
